@@ -16,6 +16,7 @@ import (
 	"runtime/debug"
 	"strings"
 	"sync"
+	"time"
 
 	"github.com/CrowdStrike/csproto/lazyproto"
 )
@@ -312,10 +313,14 @@ func (rw *RaceWatch) New() (int, string) {
 		return 0, ""
 	}
 	txt := ""
-	if rw.path != "" {
+	for try := 0; try < 20 && rw.path != ""; try++ {
 		if b, err := os.ReadFile(rw.path); err == nil && int64(len(b)) > rw.off {
 			txt = string(b[rw.off:])
+			if strings.Count(txt, "WARNING: DATA RACE") >= 1 && strings.HasSuffix(strings.TrimSpace(txt), "==================") {
+				break
+			}
 		}
+		time.Sleep(5 * time.Millisecond) // reporting only; no effect on the schedule
 	}
 	return n, txt
 }
